@@ -5,7 +5,7 @@
 // the DEFAULT when the pattern or the group did not take part, NULL when the text is not a literal of the type, BOOLEAN =
 // the group's existence, TRIM on TEXT, arrays and TIMESTAMPs position by position from their listed groups (a part that is
 // out of range gives no timestamp), never a value from another group or line, never truncated or wrapped.
-// Grid: 29 column definitions over 3 capture patterns, two split patterns and inline patterns (one with the text of a split pattern; columns over groups of two patterns) x 69 lines (partial matches,
+// Grid: 30 column definitions over 3 capture patterns, two split patterns and inline patterns (one with the text of a split pattern; columns over groups of two patterns) x 74 lines (partial matches,
 // no match, empty groups, 64-bit extremes and beyond, out-of-range date parts, two matches on one line, surrounding blanks),
 // each line alone and all lines as one file (no value leaks from another line).
 // Also: INTERVAL literals (exactly hours:minutes:seconds), month names in a day / month-name / year TIMESTAMP (only a month
@@ -84,6 +84,11 @@ fn columns() -> Vec<Col> {
         Col { def: "pad[1], line[2], line[1] => v TEXT[]", value: |l| { let e = vec![as_text(group(P_PAD, l, 1)), as_text(group(P_MAIN, l, 2)), as_text(group(P_MAIN, l, 1))]; if e.iter().all(|x| x.is_null()) { J::Null } else { J::Array(e) } } },
         Col { def: "date[1], date[2], date[3], f7[4], f7[5], f7[6] => v TIMESTAMP", value: |l| match (caps(P_DATE, l), caps(r"at ([0-9]+)-([0-9]+)-([0-9]+)T([0-9]+):([0-9]+):([0-9]+)\.([0-9]+)", l)) {
               (Some(d), Some(t)) => timestamp(&[d[1].clone(), d[2].clone(), d[3].clone(), t[4].clone(), t[5].clone(), t[6].clone()]), _ => J::Null } },
+        // the month group (or any other) is optional in the pattern: a group that did not take part gives no timestamp
+        Col { def: "ym[1], ym[2], ym[3] => v TIMESTAMP", value: |l| match caps(r"y=([0-9]+)(?: m=([0-9a-z]+))? q=([0-9]+)", l) { Some(c) => match c[2].as_deref() {
+              Some(m) if m.parse::<i64>().is_err() => { let n = match m { "jan" => 1, "feb" => 2, "mar" => 3, "apr" => 4, "may" => 5, "jun" | "june" => 6, "jul" | "july" => 7, "aug" => 8, "sep" | "sept" => 9, "oct" => 10, "nov" => 11, "dec" => 12, _ => 0 };
+                  if n == 0 { J::Null } else { timestamp(&[c[1].clone(), Some(n.to_string()), c[3].clone()]) } },
+              _ => timestamp(&c[1..4]) }, None => J::Null } },
         // an inline pattern whose text is also the text of a named split pattern is still a pattern of its own: group 1 of its leftmost match
         Col { def: "'([,;])' => v TEXT", value: |l| as_text(group("([,;])", l, 1)) },
         Col { def: "'([,;])' => v TEXT DEFAULT 'none'", value: |l| match caps("([,;])", l) { Some(c) => as_text(c[1].clone()), None => json!("none") } },
@@ -94,7 +99,7 @@ fn columns() -> Vec<Col> {
 }
 
 fn definition(col: &str) -> String {
-    format!("CREATE TABLE t(line = '{}', date = '{}', pad = '{}', csv = split ',', sep = split '([,;])', f7 = 'at ([0-9]+)-([0-9]+)-([0-9]+)T([0-9]+):([0-9]+):([0-9]+)\\\\.([0-9]+)', ymd = split '/', iv = 'i=(\\\\S*)', dmy = 'on ([0-9]+) ([A-Za-z]+) ([0-9]+)', 'always=(.*)|(.*)' => anchor TEXT DEFAULT 'row', {});",
+    format!("CREATE TABLE t(line = '{}', date = '{}', pad = '{}', csv = split ',', sep = split '([,;])', ym = 'y=([0-9]+)(?: m=([0-9a-z]+))? q=([0-9]+)', f7 = 'at ([0-9]+)-([0-9]+)-([0-9]+)T([0-9]+):([0-9]+):([0-9]+)\\\\.([0-9]+)', ymd = split '/', iv = 'i=(\\\\S*)', dmy = 'on ([0-9]+) ([A-Za-z]+) ([0-9]+)', 'always=(.*)|(.*)' => anchor TEXT DEFAULT 'row', {});",
         P_MAIN.replace('\\', "\\\\"), P_DATE.replace('\\', "\\\\"), P_PAD.replace('\\', "\\\\"), col)
 }
 
@@ -117,7 +122,7 @@ fn verif_grid() {
         "at 2020-05-06T07:08:09.5", "at 2020-05-06T07:08:09.123", "at 2020-05-06T07:08:09.999", "at 2020-05-06T07:08:09.1000", "at 2020-05-06T07:08:09.123456", "at 2020-05-06T07:08:09.999999",
         "at 2020-05-06T07:08:09.1000000", "at 2020-05-06T07:08:09.987654321", "at 2020-05-06T07:08:09.4294967297", "at 2020-02-30T07:08:09.1",
         "i=1:2:3", "i=01:02:03:24", "i=10:20:30:40:50:60", "i=01:02:03:", "i=1:2", "i=:1:2", "i=25:61:61", "i=x:1:2", "i=0:0:0",
-        "u=ann n=1 r=1 t=[x]", "d=2021-06-01 at 2020-05-06T17:45:09.5", "d=2021-06-01 17:45:09 at 2020-05-06T01:02:03.5", "retries=3;timeout,4",
+        "u=ann n=1 r=1 t=[x]", "d=2021-06-01 at 2020-05-06T17:45:09.5", "d=2021-06-01 17:45:09 at 2020-05-06T01:02:03.5", "retries=3;timeout,4", "y=2020 q=5", "y=2020 m=3 q=5", "y=2020 m=13 q=5", "y=2020 m=sept q=5", "y=2020 m=sep7 q=5",
         "on 5 Mar 2020", "on 5 Marker 2020", "on 5 Junk 2021", "on 31 dec 1999", "on 1 Decoder 2020", "on 9 Sept 2020", "on 9 September 2020", "on 7 MAY 2020", "on 7 Maybe 2020",
     ];
     let cols = columns();
